@@ -28,6 +28,7 @@ func c11(c *Ctx) {
 	r.Decides("the eviction call is control-dependent on a test that involves the victim's own release for this task and the task's remaining shortage (no victim that frees nothing of what is short)")
 	r.Decides("every candidate appended by the memory and CPU victim builders passed the eligibility filters (active, eviction policy allowed, priority <= threshold, eviction enabled; BE builders: QoS BE, policy allowed); memory and CPU builders apply the same filters")
 	r.Decides("the victim order compares eviction priority, then priority, then label priority (ascending), then the usage/request sub-order, identically in both evictors; the eviction-priority annotation is parsed with the bit size it is narrowed to")
+	r.Decides("the policy name tested against a pod's opt-out annotation is, through every builder, the name of the feature the task is built for (string(feature)), never a fixed name")
 	r.Declines("minimality in amounts: how much each victim frees versus how much is short; the target computation itself")
 
 	if fn := c.Fn(evictUtilPkg, "", "KillAndEvictPods"); fn != nil {
@@ -36,6 +37,7 @@ func c11(c *Ctx) {
 	c11builders(c)
 	c11order(c)
 	c11parse(c)
+	c11policyName(c)
 }
 
 func c11loop(c *Ctx, fn *ssa.Function) {
@@ -390,5 +392,99 @@ func c11parse(c *Ctx) {
 	}
 	if n == 0 {
 		r.Unknown("CONV", fkey(fn)+"/int32-from-ParseInt32", c.Pos(fn.Pos()), "no int32 conversion found: unknown idiom")
+	}
+}
+
+// c11policyName: the opt-out annotation is tested against the policy the task is built for.
+func c11policyName(c *Ctx) {
+	r := c.R
+	r.Rule("FLOW(policy name): in memoryevict and cpuevict the policy argument of every IsEvictionPolicyAllowed call is a parameter of its function; every caller passes its own parameter on, and the chain ends in buildEvictTask with string(feature) of the feature parameter (also at the call through the selected builder function value)")
+	for _, rel := range []string{memEvictPkg, cpuEvictPkg} {
+		type slot struct {
+			fn  *ssa.Function
+			idx int
+		}
+		work := []slot{}
+		inSet := map[slot]bool{}
+		fns := c.PkgFuncs(rel)
+		paramIdx := func(fn *ssa.Function, v ssa.Value) int {
+			for i, p := range fn.Params {
+				if ssa.Value(p) == v {
+					return i
+				}
+			}
+			return -1
+		}
+		isFeatureConv := func(fn *ssa.Function, v ssa.Value) bool {
+			cv, ok := v.(*ssa.Convert)
+			if !ok {
+				if ct, ok2 := v.(*ssa.ChangeType); ok2 {
+					return paramIdx(fn, ct.X) >= 0 && strings.HasSuffix(ct.X.Type().String(), "featuregate.Feature")
+				}
+				return false
+			}
+			return paramIdx(fn, cv.X) >= 0 && strings.HasSuffix(cv.X.Type().String(), "featuregate.Feature")
+		}
+		nSeeds, nTerm := 0, 0
+		for _, fn := range fns {
+			for _, cl := range an.Calls(fn, false) {
+				if an.ShortCallee(cl.Common()) != "IsEvictionPolicyAllowed" {
+					continue
+				}
+				nSeeds++
+				i := paramIdx(fn, cl.Common().Args[0])
+				r.Check(i >= 0, "FLOW", fkey(fn)+"/policy-is-parameter", c.InstrPos(cl), "the tested policy is the builder's parameter", "IsEvictionPolicyAllowed is called with "+an.Path(cl.Common().Args[0])+" instead of the policy name handed to the builder")
+				if i >= 0 && !inSet[slot{fn, i}] {
+					inSet[slot{fn, i}] = true
+					work = append(work, slot{fn, i})
+				}
+			}
+		}
+		for len(work) > 0 {
+			cur := work[0]
+			work = work[1:]
+			for _, g := range fns {
+				for _, cl := range an.Calls(g, false) {
+					if cl.Common().StaticCallee() != cur.fn {
+						continue
+					}
+					a := cl.Common().Args[cur.idx]
+					if i := paramIdx(g, a); i >= 0 {
+						if !inSet[slot{g, i}] {
+							inSet[slot{g, i}] = true
+							work = append(work, slot{g, i})
+						}
+						continue
+					}
+					if isFeatureConv(g, a) {
+						nTerm++
+						continue
+					}
+					r.Fail("FLOW", fkey(g)+"=>"+cur.fn.Name()+"/policy-threaded", c.InstrPos(cl), "the policy name passed to "+cur.fn.Name()+" is "+an.Path(a)+", neither the caller's own policy parameter nor string(feature)")
+				}
+			}
+		}
+		// the dynamic call through the selected builder in buildEvictTask / its memory counterpart
+		for _, g := range fns {
+			for _, cl := range an.Calls(g, false) {
+				cc := cl.Common()
+				if cc.StaticCallee() != nil || cc.IsInvoke() || len(cc.Args) != 3 {
+					continue
+				}
+				if b, ok := cc.Args[0].Type().Underlying().(*types.Basic); !ok || b.Kind() != types.String {
+					continue
+				}
+				if !strings.HasSuffix(cc.Args[1].Type().String(), "ResourceThresholdStrategy") {
+					continue
+				}
+				ok := isFeatureConv(g, cc.Args[0])
+				if ok {
+					nTerm++
+				}
+				r.Check(ok, "FLOW", fkey(g)+"/builder-call/policy=string(feature)", c.InstrPos(cl), "the selected builder is called with string(feature)", "the victim builder is called with "+an.Path(cc.Args[0])+" instead of string(feature): pods opted out of THIS policy are taken, pods opted out of another one are spared")
+			}
+		}
+		r.Floor("FLOW", "IsEvictionPolicyAllowed calls in "+rel, nSeeds, 2)
+		r.Floor("FLOW", "string(feature) terminals in "+rel, nTerm, 1)
 	}
 }
